@@ -518,19 +518,19 @@ func genProgram(r *rand.Rand, name, template string) *GenProgram {
 	p := &GenProgram{Name: name, Template: template, Files: map[string]string{}}
 	g := &gen{r: r, p: p}
 	forms := []string{"func", "closure"}
-	nFn := 2 + r.Intn(3)
+	nFn := 2 + r.Intn(2)
 	blockingP := 0 // percentage
 	withLib := false
 	switch template {
 	case "single":
 	case "methods-generics":
 		forms = []string{"method-val", "method-ptr", "generic", "generic", "func"}
-		nFn = 3 + r.Intn(3)
+		nFn = 3 + r.Intn(2)
 		blockingP = 20
 	case "blocking":
 		forms = []string{"func", "closure", "method-ptr", "generic"}
 		blockingP = 100
-		nFn = 3 + r.Intn(3)
+		nFn = 3 + r.Intn(2)
 	case "multi-pkg-incjs":
 		forms = []string{"func", "method-val", "generic", "closure"}
 		withLib = true
@@ -539,7 +539,7 @@ func genProgram(r *rand.Rand, name, template string) *GenProgram {
 		forms = []string{"func", "method-ptr", "closure", "generic"}
 		p.NonASCII = true
 		blockingP = 30
-		nFn = 3 + r.Intn(3)
+		nFn = 3 + r.Intn(2)
 	case "mixed-big":
 		forms = []string{"func", "closure", "method-val", "method-ptr", "generic"}
 		withLib = true
@@ -552,9 +552,9 @@ func genProgram(r *rand.Rand, name, template string) *GenProgram {
 		fs := &fnSpec{form: forms[r.Intn(len(forms))], pkg: pkg, nonascii: p.NonASCII && r.Intn(4) != 0}
 		fs.blocking = r.Intn(100) < blockingP
 		fs.realBlk = fs.blocking && r.Intn(2) == 0
-		fs.nKinds = 5 + r.Intn(10)
+		fs.nKinds = 4 + r.Intn(8)
 		if template == "mixed-big" {
-			fs.nKinds = 8 + r.Intn(16)
+			fs.nKinds = 6 + r.Intn(10)
 		}
 		if pkg == "lib" {
 			fs.name = fmt.Sprintf("F%d", i)
@@ -579,10 +579,8 @@ func genProgram(r *rand.Rand, name, template string) *GenProgram {
 		s.L("")
 		s.L("\t\"prog/lib\"")
 		s.L(")")
-	} else {
-		s.L("import \"github.com/gopherjs/gopherjs/js\"")
+		s.L("")
 	}
-	s.L("")
 	s.L("type T1 struct{ n int }")
 	s.L("")
 	if p.NonASCII {
@@ -621,7 +619,7 @@ func genProgram(r *rand.Rand, name, template string) *GenProgram {
 		ls.L("// Package lib carries a .inc.js file.")
 		ls.L("package lib")
 		ls.L(libHelperSrc)
-		nl := 2 + r.Intn(3)
+		nl := 1 + r.Intn(2)
 		for i := 0; i < nl; i++ {
 			fs := mk("lib", i)
 			fns = append(fns, fs)
@@ -667,7 +665,6 @@ func genProgram(r *rand.Rand, name, template string) *GenProgram {
 	// main()
 	s = mainSrc
 	s.L("func main() {")
-	s.L("\tjs.Global.Get(\"Error\").Set(\"stackTraceLimit\", 24)")
 	for i := 0; i < nInit; i++ {
 		s.L(fmt.Sprintf("\tuse(g%d)", i))
 	}
